@@ -144,6 +144,31 @@ def generate():
         "skel_is_idle_gen": calls(fn_body(pm, r"fn\s+pool_is_idle\s*\(", "pool_is_idle")),
         "skel_act_all_gen": ["".join(fn_body(pm, r"fn\s+activate_all_workers\s*\(", "activate_all_workers").split())],
     }
+    # the overflow path of schedule_task moves exactly one bucket from the full local queue to the injector (tasks are
+    # conserved by every step in Pool.v): the drained count, what is pushed, and the two sizes are part of the obligation
+    sched_body = fn_body(mt, r"fn\s+schedule_task\s*\(", "schedule_task")
+    def call_arg(text, rx, what):
+        m = re.search(rx, text)
+        if not m:
+            raise Refuse(what + " not found in schedule_task")
+        depth, j = 0, m.end() - 1
+        while j < len(text):
+            if text[j] == "(":
+                depth += 1
+            elif text[j] == ")":
+                depth -= 1
+                if depth == 0:
+                    return "".join(text[m.end():j].split())
+            j += 1
+        raise Refuse(what + ": unbalanced parentheses")
+    sk["skel_sched_gen"] = sk["skel_sched_gen"] + [
+        "drain:" + call_arg(sched_body, r"local_queue\s*\.\s*drain\s*\(", "local_queue.drain(..)"),
+        "push_bucket:" + call_arg(sched_body, r"injector\s*\.\s*push_bucket\s*\(", "injector.push_bucket(..)")]
+    for name in ("BUCKET_SIZE", "QUEUE_SIZE"):
+        m = re.search(r"const\s+%s\s*:\s*usize\s*=\s*([^;]+);" % name, mt)
+        if not m:
+            raise Refuse("const %s not found" % name)
+        sk["skel_sched_gen"].append("%s=%s" % (name, "".join(m.group(1).split())))
     # the decisive condition of try_set_worker_inactive, textually
     tsi = "".join(fn_body(pm, r"fn\s+try_set_worker_inactive\s*\(", "try_set_worker_inactive").split())
     for frag in ("ifactive_workers==(1<<worker_id){Some(active_workers)}else{Some(active_workers&!(1<<worker_id))}",
